@@ -57,6 +57,24 @@ class _Return(Exception):
 MAX_UNROLL = 40
 
 
+_HQ_CACHE = {}
+
+
+def has_quantifier(e):
+    if not isinstance(e, z3.ExprRef):
+        return False
+    k = e.get_id()
+    if k in _HQ_CACHE:
+        return _HQ_CACHE[k]
+    if z3.is_quantifier(e):
+        r = True
+    else:
+        r = any(has_quantifier(ch) for ch in e.children())
+    if len(_HQ_CACHE) < 200000:
+        _HQ_CACHE[k] = r
+    return r
+
+
 class Ctx:
     """state of one path"""
 
@@ -73,7 +91,10 @@ class Ctx:
         self.trusted = set()
         self.solver = z3.Solver()
         self.solver.set('rlimit', 3000000)
-        self.solver.set('timeout', 4000)
+        self.solver.set('timeout', 1500)
+        self.full_solver = z3.Solver()
+        self.full_solver.set('rlimit', 400000)
+        self.nquant = 0
         self.safety = False
         self.modifies = set()
         self.frame_checked = True
@@ -94,11 +115,23 @@ class Ctx:
         if c is False:
             raise PathEnd()
         self.pc.append(c)
-        self.solver.add(c)
+        # the in-path feasibility solver only sees quantifier-free facts (fewer facts = more
+        # paths explored, never fewer: sound); obligations always carry the full path condition
+        if not has_quantifier(c):
+            self.solver.add(c)
+        else:
+            self.nquant += 1
+        self.full_solver.add(c)
 
     def feasible(self, c):
         r = self.solver.check(O.to_z3(c))
-        return r != z3.unsat
+        if r == z3.unsat:
+            return False
+        if self.nquant:
+            # quantified facts (axioms, invariants) may make the branch infeasible: short second look
+            r = self.full_solver.check(O.to_z3(c))
+            return r != z3.unsat
+        return True
 
     def entails(self, c):
         """quick in-path proof attempt (used for shape reasoning); False means 'not proved'"""
@@ -800,7 +833,20 @@ class Frame:
             except InvariantNotApplicable as e:
                 raise Unsupported("invariant of %s#%s not applicable: %s" % (self.qualname, lname, e))
 
-        spec.old_env = EnvView(dict(self.env))
+        # values at loop entry; tensors the body mutates are snapshotted (content and init)
+        oldd = dict(self.env)
+        for nme in mutated:
+            v = oldd.get(nme)
+            if isinstance(v, Tn):
+                fz = Tn.fresh(v.shape, v.snapshot(), v.kind, origin='loop-entry', lib=v.lib, dtype=v.dtype)
+                if v.cell.init is not None:
+                    ini, imap = v.cell.init, list(v.imap)
+
+                    def init_snap(*idx, _ini=ini, _v=v):
+                        return _ini(*_v.cidx(idx))
+                    fz.cell.init = init_snap
+                oldd[nme] = fz
+        spec.old_env = EnvView(oldd)
         # 1. initialisation
         for label, f in inv_at(0, 'init'):
             ctx.oblige("%s/init:%s" % (lname, label), f, 'loop-init')
